@@ -144,6 +144,7 @@ def main():
     else:
         print("extract: unchanged (%d ints, %d floats, %d never-cache)" % (len(ints), len(flts), len(ign)))
     tool_facts(repo, os.path.join(os.path.dirname(a.out), 'Tool.lean'))
+    backend_facts(repo, os.path.join(os.path.dirname(a.out), 'Backend.lean'))
 
 def tool_facts(repo, out):
     """facts about debug_registers/main.c that the C20 theorems rest on: every index the decoders
@@ -192,6 +193,66 @@ def tool_facts(repo, out):
         '/-- main() returns EXIT_FAILURE before any decoder when fewer values than this were parsed (0 = no such guard) -/',
         '@[reducible] def toolMinValues : Nat := 0x%x' % (guard if guard_first else 0),
         'end Sx.Gen', ''])
+    old = open(out).read() if os.path.exists(out) else None
+    if old != text:
+        open(out, 'w').write(text)
+        print("extract: wrote %s" % out)
+
+def backend_facts(repo, out):
+    """constants of the bundled SPI backends: the transfer limit and the sizes of the local arrays
+    of src/sx127x_linux_spi.c (values from the compiler), the error codes involved"""
+    lin = strip_comments(open(os.path.join(repo, 'src', 'sx127x_linux_spi.c')).read())
+    esp = strip_comments(open(os.path.join(repo, 'src', 'sx127x_esp_spi.c')).read())
+    defs = re.findall(r'^\s*#define\s+(\w+)[ \t]+(\S[^\n]*)$', lin, flags=re.M)
+    if not any(n == 'SPI_MAX_TRANSFER_SIZE' for n, _ in defs):
+        die("sx127x_linux_spi.c: SPI_MAX_TRANSFER_SIZE not found")
+    # local byte arrays: name -> size expression, per function
+    arrays = []
+    for fm in re.finditer(r'int\s+sx127x_spi_(\w+)\s*\([^)]*\)\s*\{(.*?)\n\}', lin, flags=re.S):
+        for am in re.finditer(r'uint8_t\s+(\w+)\s*\[([^\]]+)\]', fm.group(2)):
+            arrays.append((fm.group(1), am.group(1), am.group(2)))
+    stub = os.path.join(os.path.dirname(os.path.abspath(__file__)), '..', 'harness', 'esp_stub')
+    tmp = tempfile.mkdtemp(prefix='sxgen.', dir='/var/tmp')
+    try:
+        cfile = os.path.join(tmp, 'b.c')
+        with open(cfile, 'w') as f:
+            f.write('#include <stdio.h>\n#include <errno.h>\n#include <stdint.h>\n#include "esp_err.h"\n')
+            for n, body in defs:
+                f.write('#define %s %s\n' % (n, body))
+            f.write('int main(void){\n')
+            f.write('  printf("SPI_MAX_TRANSFER_SIZE %lld\\n", (long long)(SPI_MAX_TRANSFER_SIZE));\n')
+            f.write('  printf("ENOMEM %lld\\n", (long long)(ENOMEM));\n')
+            f.write('  printf("ESP_ERR_INVALID_ARG %lld\\n", (long long)(ESP_ERR_INVALID_ARG));\n')
+            f.write('  printf("ESP_OK %lld\\n", (long long)(ESP_OK));\n')
+            for fn, an, ex in arrays:
+                f.write('  printf("LIN_%s_%s_SIZE %%lld\\n", (long long)(%s));\n' % (fn, an, ex))
+            f.write('  return 0; }\n')
+        exe = os.path.join(tmp, 'b')
+        r = subprocess.run(['gcc', '-std=gnu99', '-w', '-I', stub, cfile, '-o', exe], capture_output=True, text=True)
+        if r.returncode != 0:
+            die("backend constant printer does not compile:\n" + r.stderr[:2000])
+        vals = [l.split() for l in subprocess.run([exe], capture_output=True, text=True).stdout.splitlines()]
+    finally:
+        shutil.rmtree(tmp, ignore_errors=True)
+    L = ['/- GENERATED by gen/extract.py from src/sx127x_linux_spi.c, src/sx127x_esp_spi.c, <errno.h> and the ESP-IDF stub header. Do not edit. -/',
+         'namespace Sx.Gen']
+    for n, v in vals:
+        v = int(v)
+        if n in ('ENOMEM', 'ESP_ERR_INVALID_ARG', 'ESP_OK'):
+            L.append('@[reducible] def %s : Int := %d' % (n, v))
+        else:
+            L.append('@[reducible] def %s : Nat := %d' % (n, v))
+    # the register-length guards, as written: `data_length == 0 || data_length > K`, per function
+    for tag, txt in (('LIN', lin), ('ESP', esp)):
+        for fn in ('read_registers', 'write_register'):
+            fm = re.search(r'int\s+sx127x_spi_%s\s*\([^)]*\)\s*\{(.*?)\n\}' % fn, txt, flags=re.S)
+            km = fm and re.search(r'data_length\s*==\s*0\s*\|\|\s*data_length\s*>\s*(\d+)', fm.group(1))
+            if not km:
+                die("%s backend: length guard of %s not found" % (tag, fn))
+            L.append('/-- K in the guard `data_length == 0 || data_length > K` of sx127x_spi_%s -/' % fn)
+            L.append('@[reducible] def %s_%s_GUARD : Nat := %s' % (tag, fn, km.group(1)))
+    L += ['end Sx.Gen', '']
+    text = '\n'.join(L)
     old = open(out).read() if os.path.exists(out) else None
     if old != text:
         open(out, 'w').write(text)
